@@ -3,14 +3,18 @@ Specs are written over 128-bit bit-vectors (sx32/zx32/sx64/zx64 widen first), so
 import mirsmt
 
 B32, B64 = 32, 64
-DOM = ["(bvsge count #x00000000)", "(bvsge bits #x00000010)", "(bvsle bits #x0000001e)",
-       "(bvsge offset #x00000000)", "(bvsle (sx32 offset) (pow2 bits))"]
-DOM_LT = DOM[:4] + ["(bvslt (sx32 offset) (pow2 bits))"]
+# domains use unsigned comparisons on purpose (offset <=u 2^bits already implies offset >= 0 as i32): cvc5's integer
+# translation, which is what makes the remainder obligations cheap, drowns in signed comparisons of symbolic values
+DOM = ["(bvule count #x7fffffff)", "(bvuge bits #x00000010)", "(bvule bits #x0000001e)", "(bvule (zx32 offset) (pow2 bits))"]
+DOM_LT = DOM[:3] + ["(bvult (zx32 offset) (pow2 bits))"]
 ACTIVE = "(bvadd initial count)"                      # initial (+wrapping) count
 POS128 = "(bvadd (bvshl (zx32 count) (zx32 bits)) (zx32 offset))"   # count * 2^bits + offset, exact
 BEGIN128 = "(bvshl (zx32 count) (zx32 bits))"
 POS64 = "((_ extract 63 0) %s)" % POS128              # < 2^62 on the domain, so the truncation is exact
-MOD3 = "(bvurem (zx32 count) (_ bv3 128))"
+# count mod 3 by its Euclidean witness: count = 3*q + r, 0 <= r <= 2 (q, r universally quantified like every other variable;
+# a 128-bit bvurem in the spec costs the solvers minutes, the witness form milliseconds)
+EUCLID = ["(bvule r #x00000002)", "(bvule q #x2aaaaaaa)", "(= (zx32 count) (bvadd (bvmul (zx32 q) (_ bv3 128)) (zx32 r)))"]
+QR = [("q", 32), ("r", 32)]
 BOUNDS = {"initial": "any i32", "count": "[0, 2^31)", "bits": "[16, 30]", "offset": "[0, 2^bits] ([0, 2^bits) for index_by_position)",
           "raw tail": "id any i32, off in [0, 2^32), term_len = 2^bits", "partition index": "{0,1,2}", "width": "full 32/64 bit, no unrolling"}
 
@@ -30,23 +34,15 @@ def run(tier, known):
     s.check("compute_term_begin_position == count*2^bits, >= 0, no panic", v4[:3], DOM[:3],
             "(and (not {f[panics]}) (= (sx64 {f[ret]}) %s) (bvsge {f[ret]} (_ bv0 64)))" % BEGIN128,
             {"f": ("compute_term_begin_position", {"active_term_id": ACTIVE, "position_bits_to_shift": "bits", "initial_term_id": "initial"})})
-    s.check("index_by_term == index_by_term_count == count mod 3, no panic", v4[:2], DOM[:1],
-            "(and (not {a[panics]}) (not {b[panics]}) (= (sx32 {a[ret]}) %s) (= (sx32 {b[ret]}) %s))" % (MOD3, MOD3),
+    s.check("index_by_term == index_by_term_count == count mod 3, no panic", v4[:2] + QR, DOM[:1] + EUCLID,
+            "(and (not {a[panics]}) (not {b[panics]}) (= {a[ret]} r) (= {b[ret]} r))",
             {"a": ("index_by_term", {"initial_term_id": "initial", "active_term_id": ACTIVE}),
              "b": ("index_by_term_count", {"term_count": "((_ sign_extend 32) count)"})})
-    s.check("index_by_position(count*2^bits + offset) == count mod 3, no panic", v4[1:], DOM_LT,
-            "(and (not {f[panics]}) (= (sx32 {f[ret]}) %s))" % MOD3,
-            {"f": ("index_by_position", {"position": POS64, "position_bits_to_shift": "bits"})})
-    # the position computed by compute_position selects the same partition as the term id does
-    s.check("index_by_position(compute_position(..)) == index_by_term(..)", v4, DOM_LT,
-            "(and (not {p[panics]}) (not {i[panics]}) (not {t[panics]}) (= {i[ret]} {t[ret]}))",
-            {"p": ("compute_position", {"active_term_id": ACTIVE, "term_offset": "offset", "position_bits_to_shift": "bits",
-                                        "initial_term_id": "initial"}),
-             "i": ("index_by_position", {"position": POS64, "position_bits_to_shift": "bits"}),
-             "t": ("index_by_term", {"initial_term_id": "initial", "active_term_id": ACTIVE})})
-
+    s.check("index_by_position(count*2^bits + offset) == count mod 3, no panic", v4[1:] + QR, DOM_LT + EUCLID,
+            "(and (not {f[panics]}) (= {f[ret]} r))",
+            {"f": ("index_by_position", {"position": POS64, "position_bits_to_shift": "bits"})}, split=("bits", range(16, 31)))
     raw = [("id", B32), ("off", B64), ("bits", B32)]
-    rdom = ["(bvule off #x00000000ffffffff)", "(bvsge bits #x00000010)", "(bvsle bits #x0000001e)"]
+    rdom = ["(bvule off #x00000000ffffffff)", "(bvuge bits #x00000010)", "(bvule bits #x0000001e)"]
     RAW = "(bvor (bvshl ((_ sign_extend 32) id) (_ bv32 64)) off)"
     TLEN = "((_ extract 63 0) (pow2 bits))"
     s.check("term_id(id<<32 | off) == id, no panic", raw[:2], rdom[:1], "(and (not {f[panics]}) (= {f[ret]} id))",
@@ -56,11 +52,11 @@ def run(tier, known):
             {"f": ("term_offset", {"raw_tail": RAW, "term_length": TLEN})})
 
     part = [("i", B32), ("n", B32), ("p", B32)]
-    pdom = ["(bvsge i #x00000000)", "(bvsle i #x00000002)", "(= n {nx[ret]})", "(= p {pv[ret]})"]
+    pdom = ["(bvule i #x00000002)", "(= n {nx[ret]})", "(= p {pv[ret]})"]
     s.check("next/previous_partition_index are inverse rotations of {0,1,2}, no panic", part, pdom,
             "(and (not {nx[panics]}) (not {pv[panics]}) (not {pn[panics]}) (not {np[panics]}) "
-            "(= (sx32 n) (bvurem (bvadd (sx32 i) (_ bv1 128)) (_ bv3 128))) (= (sx32 p) (bvurem (bvadd (sx32 i) (_ bv2 128)) (_ bv3 128))) "
+            "(= n (ite (= i #x00000002) #x00000000 (bvadd i #x00000001))) (= p (ite (= i #x00000000) #x00000002 (bvsub i #x00000001))) "
             "(= {pn[ret]} i) (= {np[ret]} i))",
             {"nx": ("next_partition_index", {"current_index": "i"}), "pv": ("previous_partition_index", {"current_index": "i"}),
              "pn": ("previous_partition_index", {"current_index": "n"}), "np": ("next_partition_index", {"current_index": "p"})})
-    return s.finish(bounds=BOUNDS)
+    return s.finish(bounds=BOUNDS, known=known)
